@@ -2,6 +2,7 @@ import Pycoin.Proofs.Base58
 import Pycoin.Proofs.Bech32Poly
 import Pycoin.Proofs.ConvertBits
 import Pycoin.Proofs.Bech32Str
+import Pycoin.Proofs.Bech32Err
 /-!
 C11 — Base58, Base58Check and Bech32/Bech32m codecs are exact and detect corruption.
 Property theorems (Base58 half; the Bech32 half is in the second part of this file).
@@ -603,6 +604,135 @@ theorem C11_rejects_bad_padding (hrp t hrpgot : List Char) (ver : Nat) (rest : L
   split
   · rfl
   · simp only [hres]
+
+/-! ## error detection -/
+
+theorem xor_left_cancel {a b c : Nat} (h : a ^^^ b = a ^^^ c) : b = c := by
+  have := congrArg (a ^^^ ·) h
+  simpa [← Nat.xor_assoc] using this
+
+theorem specConst_other (s s' : Encoding) (h : s' ≠ s) : specConst s' = specConst s ^^^ crossT := by
+  cases s <;> cases s' <;> first | exact absurd rfl h | decide
+
+/-- **error detection, reduction.** Let `xs` be a word accepted with constant `s` (`xs` = expanded hrp, data and
+checksum) and `e` any error word of the same length (`corrupt xs e` xors them symbol by symbol, which covers every
+substitution of symbols).  Then the corrupted word is accepted with the same constant exactly when the syndrome of `e`
+is 0, and with the other constant exactly when the syndrome is `1 xor BECH32M_CONST`.  So "every corruption in a
+set `E` of error words is refused" is the finite statement "no `e ∈ E` has syndrome 0 or `crossT`". -/
+theorem C11_errdetect_reduction (xs e : List Nat) (hl : xs.length = e.length) (s : Encoding)
+    (hx : polymod xs = specConst s) :
+    (polymod (corrupt xs e) = specConst s ↔ syndrome e = 0) ∧
+    (∀ s', s' ≠ s → (polymod (corrupt xs e) = specConst s' ↔ syndrome e = crossT)) := by
+  rw [polymod_corrupt xs e hl, hx]
+  constructor
+  · constructor
+    · intro h
+      exact xor_left_cancel (a := specConst s) (by rw [h, Nat.xor_zero])
+    · intro h; rw [h, Nat.xor_zero]
+  · intro s' hs'
+    rw [specConst_other s s' hs']
+    constructor
+    · intro h; exact xor_left_cancel h
+    · intro h; rw [h]
+
+/-- **one substituted symbol** among the last 89 symbols of an accepted word is refused under both constants
+(syndromes of all 89 × 31 single errors evaluated in the kernel) -/
+theorem C11_errdetect_w1 (xs : List Nat) (s : Encoding) (hx : polymod xs = specConst s)
+    (a j v : Nat) (hj : j < 89) (hv1 : 1 ≤ v) (hv : v < 32) (hl : xs.length = a + 1 + j) (s' : Encoding) :
+    polymod (corrupt xs (List.replicate a 0 ++ v :: List.replicate j 0)) ≠ specConst s' := by
+  have hred := C11_errdetect_reduction xs (List.replicate a 0 ++ v :: List.replicate j 0) (by simp; omega) s hx
+  rw [syndrome_single_word] at hred
+  have hne := single_ne j v hj hv1 hv
+  by_cases hs : s' = s
+  · subst hs; intro h; exact hne.1 (hred.1.mp h)
+  · intro h; exact hne.2 ((hred.2 s' hs).mp h)
+
+/-- **two substituted symbols** among the last 89 symbols of an accepted word are refused under both constants
+(the single-error syndromes are pairwise distinct, and no two differ by `crossT`: kernel evaluation) -/
+theorem C11_errdetect_w2 (xs : List Nat) (s : Encoding) (hx : polymod xs = specConst s)
+    (a g j v1 v2 : Nat) (hj : g + (j + 1) < 89) (h1 : 1 ≤ v1) (h1' : v1 < 32) (h2 : 1 ≤ v2) (h2' : v2 < 32)
+    (hl : xs.length = a + 1 + g + 1 + j) (s' : Encoding) :
+    polymod (corrupt xs (List.replicate a 0 ++ v1 :: (List.replicate g 0 ++ v2 :: List.replicate j 0))) ≠ specConst s' := by
+  have hred := C11_errdetect_reduction xs
+    (List.replicate a 0 ++ v1 :: (List.replicate g 0 ++ v2 :: List.replicate j 0)) (by simp; omega) s hx
+  rw [syndrome_double_word] at hred
+  have hne := single_pair_ne (g + (j + 1)) v1 j v2 hj h1 h1' (by omega) h2 h2' (by omega)
+  by_cases hs : s' = s
+  · subst hs; intro h; exact hne.1 (hred.1.mp h)
+  · intro h; exact hne.2 ((hred.2 s' hs).mp h)
+
+/-- number of non-zero symbols of an error word -/
+def weight (e : List Nat) : Nat := (e.filter (· ≠ 0)).length
+
+/-- the finite statement behind BIP173's guarantee: no non-zero error word of weight ≤ 4 spanning at most 89 symbols
+has syndrome 0 (it is a statement about the generator words only) -/
+def NoZeroSyndrome : Prop :=
+  ∀ e : List Nat, e.length ≤ 89 → (∀ x ∈ e, x < 32) → 1 ≤ weight e → weight e ≤ 4 → syndrome e ≠ 0
+
+/-- **up to four substitutions, partial.** *Extra hypothesis*: `NoZeroSyndrome` (proved above for weights 1 and 2 as
+`C11_errdetect_w1/_w2`; for weights 3–4 it was checked outside Lean — all 3 766 036 syndromes of weight ≤ 2 within 89
+symbols are distinct — and is sampled by the harness, not proved).  Under it, any 1..4 substitutions within the last 89
+symbols of a word accepted with constant `s` give a word that is *not accepted with the same constant*.  Acceptance
+under the other constant is not excluded: see `C11_errdetect_any4_refuted`. -/
+theorem C11_errdetect_le4_partial (H : NoZeroSyndrome) (xs : List Nat) (s : Encoding) (hx : polymod xs = specConst s)
+    (a : Nat) (e : List Nat) (he : e.length ≤ 89) (hlt : ∀ x ∈ e, x < 32) (hw1 : 1 ≤ weight e) (hw4 : weight e ≤ 4)
+    (hl : xs.length = a + e.length) :
+    polymod (corrupt xs (List.replicate a 0 ++ e)) ≠ specConst s := by
+  have hred := C11_errdetect_reduction xs (List.replicate a 0 ++ e) (by simp; omega) s hx
+  rw [syndrome_replicate_append] at hred
+  intro h
+  exact H e he hlt hw1 hw4 (hred.1.mp h)
+
+/-- number of positions in which two strings of the same length differ -/
+def hamming (a b : List Char) : Nat := ((a.zip b).filter (fun p => p.1 != p.2)).length
+
+/-- the clause of the property read literally: whatever differs in 1..4 characters from an accepted address is refused -/
+def ErrDetect4 : Prop :=
+  ∀ hrp t t' : List Char, decode hrp t ≠ none → t'.length = t.length → 1 ≤ hamming t t' → hamming t t' ≤ 4 →
+    decode hrp t' = none
+
+theorem decode_accepts_160 (hrp t : List Char) (ver : Nat) (rest : List Nat) (spec : Encoding)
+    (hraw : bech32Decode t = some (hrp, ver :: rest, spec)) (hlen : rest.length = 32) (hv : ver ≤ 16)
+    (hspec : spec = specOf ver) : decode hrp t ≠ none := by
+  have hd : ∀ x ∈ rest, x < 2 ^ 5 := by
+    have := (bech32Decode_some t hrp _ spec hraw).2.2.2.2.2.1
+    intro x hx; exact this x (List.mem_cons_of_mem _ hx)
+  obtain ⟨R, b, hb, hlenR, _, _, hres⟩ := convertbits_nopad 5 8 pos8 rest hd
+  have hb0 : b = 0 := by omega
+  subst hb0
+  have hcond : ¬ (0 ≥ 5 ∨ Base58.ofDigits (2 ^ 5) rest % 2 ^ 0 ≠ 0) := by
+    simp [Nat.mod_one]
+  rw [if_neg hcond] at hres
+  have hR : R.length = 20 := by omega
+  rw [decode_of_raw hrp t hrp _ spec hraw]
+  simp only [ne_eq, not_true_eq_false, if_false, hres, hR]
+  have c4 : ¬ ((ver = 0 ∧ spec ≠ .bech32) ∨ (ver ≠ 0 ∧ spec ≠ .bech32m)) := by
+    rw [hspec]; unfold specOf
+    by_cases h0 : ver = 0 <;> simp [h0]
+  have c2 : ¬ (ver > 16) := by omega
+  simp [c2, c4]
+
+def witnessA : List Char := "bc1qw508d6qejxtdg4y5r3zarvary0c5xw7kv8f3t4".toList
+def witnessB : List Char := "bc1rw508d6nejxtdg4y5rezarvaay0c5xw7kv8f3t4".toList
+
+theorem witnessA_raw : bech32Decode witnessA = some (['b', 'c'],
+    [0, 14, 20, 15, 7, 13, 26, 0, 25, 18, 6, 11, 13, 8, 21, 4, 20, 3, 17, 2, 29, 3, 12, 29, 3, 4, 15, 24, 20, 6, 14, 30, 22],
+    .bech32) := by decide +kernel
+
+theorem witnessB_raw : bech32Decode witnessB = some (['b', 'c'],
+    [3, 14, 20, 15, 7, 13, 26, 19, 25, 18, 6, 11, 13, 8, 21, 4, 20, 3, 25, 2, 29, 3, 12, 29, 29, 4, 15, 24, 20, 6, 14, 30, 22],
+    .bech32m) := by decide +kernel
+
+/-- **the literal clause is false** (for pycoin as for every BIP350 decoder): the BIP173 example address
+`bc1qw508d6qejxtdg4y5r3zarvary0c5xw7kv8f3t4` (v0, Bech32) and `bc1rw508d6nejxtdg4y5rezarvaay0c5xw7kv8f3t4`, which differs
+from it in four characters, are both accepted by `decode("bc", ·)` — the second as a version-3 Bech32m address.  Four
+substitutions that include the version symbol can move a string from one checksum constant to the other; BIP350 does
+not promise otherwise.  Replayed on the implementation by `corpus/C11.txt`. -/
+theorem C11_errdetect_any4_refuted : ¬ ErrDetect4 := by
+  intro H
+  have hA := decode_accepts_160 ['b', 'c'] witnessA 0 _ .bech32 witnessA_raw (by decide) (by decide) (by decide)
+  have hB := decode_accepts_160 ['b', 'c'] witnessB 3 _ .bech32m witnessB_raw (by decide) (by decide) (by decide)
+  exact hB (H ['b', 'c'] witnessA witnessB hA (by decide) (by decide) (by decide))
 
 /-! ## non-vacuity (evaluated) -/
 #guard decide (Allowed ['b', 'c'] 0 (List.replicate 20 7))
